@@ -14,7 +14,7 @@ RULE = ('random (pipe, data, model) topologies with product ≤ 12, 1–2 blocks
         'second-order data are checked; files on disk are listed and read back; the trace matcher checks that all ranks '
         'take part in the same collectives; continued gradients are compared with the unsharded reference implementing '
         'the C09 load semantics (model-parallel degree 1; degree > 1 is known finding F2); non-trivial = ≥2 ranks'
-        '; float32 inverses with float64 factors; in-place roll-back histories (checkpoint, train, checkpoint, load the first into the same object, train, checkpoint at the same step count) with the truth recomputed per checkpoint; checkpoints right after a step that refreshed factors but not eigendecompositions; several inverse workers saving into one directory with file-system calls as scheduling points')
+        '; float32 inverses with float64 factors; in-place roll-back histories (checkpoint, train, checkpoint, load the first into the same object, train, checkpoint at the same step count) with the truth recomputed per checkpoint; checkpoints right after a step that refreshed factors but not eigendecompositions; uneven pipeline splits (18 and 2 layers per stage); several inverse workers saving into one directory with file-system calls as scheduling points')
 TRUSTED = [
     'Lean 4.33 kernel; axioms audited ⊆ {propext, Classical.choice, Quot.sound}',
     'hand-written models KV.NeoxCkpt (gather/merge/restore bookkeeping) and KV.Neox (assignment, C12)',
@@ -53,7 +53,7 @@ def check_case(ctx, cfg, seed):
         for l, (name, iw) in enumerate(zip(res['names'], res['inv'])):
             if iw == r:
                 truth[name] = res['ops'][last_s]['factors'][l]
-    nlayers_world = (cfg.pp - (1 if getattr(cfg, 'empty_stage', None) is not None else 0)) * 2 * cfg.blocks
+    nlayers_world = sum(2 * neoxsim.blocks_of(cfg, q) for q in range(cfg.pp) if q != getattr(cfg, 'empty_stage', None))
     if len(truth) != nlayers_world:
         ctx.fail(f'{len(truth)} layers have an inverse worker, expected {nlayers_world}', case, 'neox-inv-workers')
         return
@@ -168,7 +168,9 @@ def check_rollback(ctx, cfg, seed):
         if op in ('b', 'B'):
             for r in range(W_):
                 for name, e in rr.res[r]['ops'][i].get('eig_vs_factor', []):
-                    if e > (1e-3 if getattr(cfg, 'inv32', False) else 1e-6):
+                    # (the library decomposes in float32 whatever the factor / inverse dtypes: accuracy ~1e-6…1e-5; a stale
+                    # decomposition belongs to a factor that differs by a whole running-average update)
+                    if e > (1e-3 if getattr(cfg, 'inv32', False) else 1e-4):
                         return ctx.fail(f'rank {r}: after rolling back to the kept checkpoint the eigendecomposition of layer {name} '
                                         f'does not belong to the restored A factor (Q diag(d) Q^T off by {e:.2e})', case, 'neox-stale-eig')
                 for name, ok in rr.res[r]['ops'][i].get('held_vs_kept', []):
@@ -218,6 +220,10 @@ def run(ctx):
         dict(pp=2, dp=2, mp=1, blocks=1, fus=1, ius=3, ops=['f1', 's', 'f1', 's', 'l1', 'f1', 's'], ckpt_dir=None, empty_stage=None),
         dict(pp=1, dp=2, mp=2, blocks=1, fus=1, ius=2, ops=['f1', 's', 'f1', 's', 'v'], ckpt_dir='DIR'),
         dict(pp=2, dp=2, mp=1, blocks=2, fus=1, ius=2, ops=['f1', 's', 'f1', 's', 'l1', 'f1', 's'], ckpt_dir='DIR', empty_stage=None),
+        # an uneven split of a deep model over the pipeline: 18 layers on one stage, 2 on the other (any per-stage chunking of the
+        # gather must still be one world-wide sequence)
+        dict(pp=2, dp=1, mp=1, stage_blocks=[9, 1], ops=['f1', 's', 'v'], ckpt_dir=None, empty_stage=None, fus=1, ius=1),
+        dict(pp=2, dp=2, mp=1, stage_blocks=[1, 9], ops=['f1', 's', 'l1', 'f1', 's'], ckpt_dir=None, empty_stage=None, fus=1, ius=1),
         # several inverse workers writing into one directory at once (file-system calls are scheduling points; every rank of
         # the simulated job has LOCAL_RANK 0, as on nodes with one process each)
         dict(pp=1, dp=3, mp=1, blocks=2, ops=['f1', 's', 'v'], ckpt_dir='DIR'),
